@@ -60,6 +60,7 @@ Definition judge_areal (cfg : list Z) (op : Z) (args res : list Z) : verdict :=
   if Z.eqb op OP_to_f64 then judge_to_f64 (a_decode_lower n es a) res else
   if Z.eqb op OP_to_f32 then judge_to_f32 (a_decode_lower n es a) res else
   if Z.eqb op OP_to_f64_rt then
+    if negb (ieee_exact 11 52 (a_decode_lower n es a)) then mkV true res false else
     (* lower bound -> double -> areal gives the exact encoding (ubit cleared) *)
     match a_decode_lower n es a with
     | NaN => mkV (Z.eqb (r mod 2^(n-1)) (2 * a_allones n + 1)) [a] true
